@@ -85,7 +85,7 @@ func RunSpec(t *testing.T, spec core.Spec, keepLog bool) *core.Result {
 	go func() { // wall-clock watchdog, outside the bubble
 		limit := 180 * time.Second
 		// a task of the code under test that spins without ever reaching a yield point (an endless loop) keeps the
-		// whole bubble from settling. Two stack samples 30 s apart that show the same goroutine running in the same
+		// whole bubble from settling. Three stack samples over 30 s (at 60, 75 and 90 s) that show the same goroutine running in the same
 		// function of the library, with no scheduling step in between, are reported as what they are: a call that
 		// does not return (C11: no deadlocks, calls complete). Anything else that exceeds the limit is trouble of
 		// the machinery and exits 3.
@@ -119,6 +119,10 @@ func RunSpec(t *testing.T, spec core.Spec, keepLog bool) *core.Result {
 			switch tick {
 			case 12: // 60 s
 				first, progress = spinning(), sched.Progress.Load()
+			case 15: // 75 s: a third sample in the middle makes a coincidence of two even less likely
+				if mid := spinning(); mid.gid != first.gid || mid.fn != first.fn {
+					first = spin{}
+				}
 			case 18: // 90 s
 				report(first, spinning(), progress)
 			case 36: // 180 s
